@@ -9,3 +9,4 @@ void operator delete(void* p) noexcept { if (p) rt_deletes++; std::free(p); }
 void operator delete[](void* p) noexcept { if (p) rt_deletes++; std::free(p); }
 void operator delete(void* p, std::size_t) noexcept { if (p) rt_deletes++; std::free(p); }
 void operator delete[](void* p, std::size_t) noexcept { if (p) rt_deletes++; std::free(p); }
+extern "C" void ir2c_init_globals(void) {}     // the real build has real globals/vtables
